@@ -18,7 +18,8 @@ RULE = ("All 36 ordered pairs (l_a,l_b) in 0..5 enumerated as shards (l_a<l_b ex
         "(R2) per charge, tolerance 1e-8*sqrt(|V_aa V_bb|) for the same charge with oracle diagonals; a float-oracle "
         "deviation is confirmed by the 40-digit mpmath instantiation before it counts.  The nuclear-attraction matrix "
         "must equal the sum over the charge axis.  Non-trivial: a pair of different shells with |V_ab| above 1e-6 of the "
-        "scale; classes record charge position and Boys-argument decade.")
+        "scale; classes record charge position and Boys-argument decade.  Sub-check extreme-ratio: per l pair one diffuse (0.02-0.06) "
+        "and one tight (cap(l)/4..cap(l)) uncontracted shell in either order at a drawn Gaussian-product prefactor 1..1e-6.")
 ASSUMPTIONS = ["reference integrals from vf/ref R2 (selftest: Gaussian-transform quadrature, mpmath, HORTON nuclear attraction)"]
 TOL = 1e-8
 
@@ -87,9 +88,41 @@ def case_st(draw, la, lb):
     return {"shells": shells, "coords": pos, "charges": q, "ccls": cls, "ints": ints}
 
 
+@st.composite
+def extreme_st(draw, la, lb):
+    """One diffuse and one tight uncontracted shell at the two ends of the exponent range, in either order, placed at a drawn
+    Gaussian-product prefactor 1 .. 1e-6: the recursions transfer angular momentum over the longest distance the domain allows."""
+    lo = 0.02 if draw(st.integers(0, 2)) else draw(gen.log_uniform(0.02, 0.06))
+    hi_a, hi_b = gen.exp_cap(la), gen.exp_cap(lb)
+    diffuse_first = draw(st.booleans())
+    hi = hi_b if diffuse_first else hi_a
+    tight = hi if draw(st.integers(0, 2)) else draw(gen.log_uniform(hi / 4, hi))
+    ea, eb = (lo, tight) if diffuse_first else (tight, lo)
+    types = [draw(st.sampled_from(["cartesian", "spherical"])) for _ in range(2)]
+    sa = {"l": la, "coord": [0.0, 0.0, 0.0], "exps": [ea], "coeffs": [[1.0]], "type": types[0]}
+    sb = {"l": lb, "coord": [0.0, 0.0, 0.0], "exps": [eb], "coeffs": [[-1.0 if draw(st.booleans()) else 1.0]], "type": types[1]}
+    mu = ea * eb / (ea + eb)
+    k = draw(st.floats(0.3, 6.0, allow_nan=False))
+    r = (k * 2.302585092994046 / mu) ** 0.5
+    u = [draw(st.floats(-1, 1, allow_nan=False)) for _ in range(3)]
+    un = sum(t * t for t in u) ** 0.5
+    if un < 1e-2 or draw(st.booleans()):
+        u, un = [[1.0, 0.0, 0.0], [0.0, 1.0, 0.0], [0.0, 0.0, 1.0]][draw(st.integers(0, 2))], 1.0
+    sb["coord"] = [r * t / un for t in u]
+    sb["placed"] = "prefactor-1e-%d" % int(k)
+    shells = [sa, sb]
+    pos, q, cls = draw(charges([s["coord"] for s in shells], shells))
+    if draw(st.booleans()):  # the first charge sits on one of the two centres
+        pos[0], cls[0] = list(shells[draw(st.integers(0, 1))]["coord"]), "on-centre"
+    return {"shells": shells, "coords": pos, "charges": q, "ccls": cls, "ints": False,
+            "extreme": "diffuse-first" if diffuse_first else "tight-first"}
+
+
 def judge(case):
     shells = case["shells"]
     v = Verdict(classes=["l%d-l%d" % (shells[0]["l"], shells[1]["l"])] + ["charge-" + c for c in case.get("ccls", [])])
+    if case.get("extreme"):
+        v.classes.append(case["extreme"])
     C = np.array(case["coords"], dtype=float).reshape(-1, 3)
     q = np.array(case["charges"], dtype=float)
     R = r3.refs(shells)
@@ -165,6 +198,14 @@ def shards(tier):
             for la in range(6) for lb in range(6)]
 
 
-SUBCHECKS = [SubCheck("pointcharge", judge, shards, strategy=lambda sh: case_st(sh["la"], sh["lb"]))]
+def shards_extreme(tier):
+    def n(la, lb):  # equal angular momenta: neither shell is preferred by the L_a >= L_b rule
+        return (6 if la == lb else 2) if tier == "quick" else (150 if la == lb else 40)
+    return [{"id": f"{la}{lb}", "la": la, "lb": lb, "n": n(la, lb), "cost": n(la, lb) * (1 + la + lb) ** 2}
+            for la in range(6) for lb in range(6)]
+
+
+SUBCHECKS = [SubCheck("pointcharge", judge, shards, strategy=lambda sh: case_st(sh["la"], sh["lb"])),
+             SubCheck("extreme-ratio", judge, shards_extreme, strategy=lambda sh: extreme_st(sh["la"], sh["lb"]))]
 EXHAUSTIVE = {"l_pairs": "all 36 ordered (l_a,l_b) in 0..5"}
-EXPECTED_CLASSES = ["pointcharge/charge-on-centre", "pointcharge/charge-almost-on-centre", "pointcharge/charge-boys-target", "pointcharge/charge-far", "pointcharge/boysT-1e1", "pointcharge/boysT-1e4"]
+EXPECTED_CLASSES = ["extreme-ratio/diffuse-first", "extreme-ratio/tight-first", "pointcharge/charge-on-centre", "pointcharge/charge-almost-on-centre", "pointcharge/charge-boys-target", "pointcharge/charge-far", "pointcharge/boysT-1e1", "pointcharge/boysT-1e4"]
